@@ -491,7 +491,7 @@ func c03SharedSlice(r *rand.Rand) Case {
 func init() {
 	register(&Prop{
 		ID:   "C03",
-		Rule: "histories of 1-40 builder steps (AddValue / AddValueAt / AddContainer / AddList / Remove / RemoveAt / list Set, MustSet (in range), Append, Clear through a handle re-acquired by Lookup / Walk(CompactFn)) over 4 path-safe keys, indices 0-4, chains to depth 2, paths to 3 components, biased towards existing positions; start = empty or generated document; steps that index into an existing non-null non-list node are skipped (outside the property). After EVERY step: AsMap(doc) vs the plain map/slice interpreter (Go) and the DOM read node by node vs the Coq model. Plus history-shared-slice: two lists made by ListNode(items...) from one slice the caller keeps, then edited independently. Non-trivial: >= 3 steps of which >= 2 use dotted/indexed paths. Distinct by Gallina term. Path components carry index chains up to four deep.",
+		Rule: "histories of 1-40 builder steps (AddValue / AddValueAt / AddContainer / AddList / Remove / RemoveAt / list Set, MustSet (in range), Append, Clear through a handle re-acquired by Lookup / Walk(CompactFn)) over 4 path-safe keys, indices 0-4, chains to depth 2, paths to 3 components, biased towards existing positions; start = empty or generated document; steps that index into an existing non-null non-list node are skipped (outside the property). After EVERY step: AsMap(doc) vs the plain map/slice interpreter (Go) and the DOM read node by node vs the Coq model. Plus history-shared-slice: two lists made by ListNode(items...) from one slice the caller keeps, then edited independently. Non-trivial: >= 3 steps of which >= 2 use dotted/indexed paths. Distinct by Gallina term. Path components carry index chains up to four deep. Positions 10-13; corpus: one empty container object under two parents, then Walk(CompactFn).",
 		Corpus: func() []Case {
 			mk := func(start map[string]any, ops ...func(d dom.ContainerBuilder, ref map[string]any) c03Step) Case {
 				return c03History(nil, start, len(ops), func(i int, d dom.ContainerBuilder, ref map[string]any, fail *[]string) (c03Step, bool) {
